@@ -298,6 +298,69 @@ def run(ctx) -> list[Inst]:
                              f"that still refer to it"),
                         file=rel, line=e.lineno, props=props))
     insts += _setlike(ctx)
+    insts += _listing_per_membership(ctx)
+    return insts
+
+
+def _listing_per_membership(ctx) -> list:
+    """PERFIELD  Model.add_association lists the association on an asset once per FIELD MEMBERSHIP (an asset on both
+    sides of a reflexive association is listed twice): remove_asset_from_association / remove_association take one
+    listing away per field the asset sits in.  Listing from a de-duplicated collection of the members breaks that
+    pairing (the second removal raises after the fields were already edited)."""
+    import ast
+    from ..core import own_nodes, stmt_text
+    prog = ctx.prog
+    if not prog.has_func('Model.add_association'):
+        return []
+    f = prog.func('Model.add_association')
+    rel = f.module.relpath
+    insts = []
+    pmap = {}
+    for x in ast.walk(f.node):
+        for ch in ast.iter_child_nodes(x):
+            pmap[id(ch)] = x
+    construct = 'PERFIELD: the association is listed on an asset once per field membership'
+    verdict = None
+    for lp in own_nodes(f.node):
+        if not isinstance(lp, ast.For):
+            continue
+        writes = [x for x in ast.walk(lp) if (isinstance(x, ast.Attribute) and x.attr == 'associations'
+                                               and isinstance(x.ctx, ast.Store)) or
+                  (isinstance(x, ast.Call) and isinstance(x.func, ast.Attribute) and x.func.attr in ('append', 'extend')
+                   and isinstance(x.func.value, ast.Attribute) and x.func.value.attr == 'associations')]
+        if not writes or not isinstance(lp.iter, ast.Name):
+            continue
+        # the loop ranges over a local: is that local filled under a `not in` test of itself (a de-duplication)?
+        for x in own_nodes(f.node):
+            if isinstance(x, ast.Call) and isinstance(x.func, ast.Attribute) and x.func.attr in ('append', 'add') \
+                    and isinstance(x.func.value, ast.Name) and x.func.value.id == lp.iter.id:
+                cur = x
+                while id(cur) in pmap:
+                    cur = pmap[id(cur)]
+                    if isinstance(cur, ast.If) and any(
+                            isinstance(c, ast.Compare) and isinstance(c.ops[0], ast.NotIn) and isinstance(c.comparators[0], ast.Name)
+                            and c.comparators[0].id == lp.iter.id for c in ast.walk(cur.test)):
+                        verdict = (lp, cur)
+                        break
+        if isinstance(lp.iter, ast.Name):
+            for x in own_nodes(f.node):
+                if isinstance(x, ast.Assign) and len(x.targets) == 1 and isinstance(x.targets[0], ast.Name) \
+                        and x.targets[0].id == lp.iter.id and isinstance(x.value, (ast.Set, ast.SetComp)) or (
+                        isinstance(x, ast.Assign) and len(x.targets) == 1 and isinstance(x.targets[0], ast.Name)
+                        and x.targets[0].id == lp.iter.id and isinstance(x.value, ast.Call) and isinstance(x.value.func, ast.Name)
+                        and x.value.func.id in ('set', 'frozenset')):
+                    verdict = (lp, x)
+    if verdict is not None:
+        lp, why = verdict
+        insts.append(Inst(
+            RULE, f.short, construct, 'violation',
+            msg=(f"'for {stmt_text(lp.target)} in {stmt_text(lp.iter)}' lists the association once per DISTINCT member "
+                 f"('{stmt_text(why, 60)}'): an asset sitting in both fields of a reflexive association is listed once, "
+                 f"but remove_asset_from_association drops one listing per field - the second drop raises ValueError after "
+                 f"the fields were already changed"),
+            file=rel, line=lp.lineno, props=('C05', 'C01')))
+    else:
+        insts.append(Inst(RULE, f.short, construct, 'ok', file=rel, line=f.node.lineno, props=('C05', 'C01'), nontrivial=False))
     return insts
 
 
